@@ -375,7 +375,11 @@ func (h *hostileCtx) hostilePackets() string {
 	}
 	var bad CPkt
 	kind := ""
-	switch t.Choose(11) {
+	switch t.Choose(13) {
+	case 11, 12:
+		// well-formed packets in an order, or with an ending, that the gateway does not expect
+		// while the host of an open channel keeps sending
+		return h.streamEndings(p, tr)
 	case 8, 9:
 		// well-formed lengths, but the UTF-16 text ends in (or consists of) unpaired
 		// surrogate code units
@@ -454,6 +458,47 @@ func (h *hostileCtx) hostilePackets() string {
 	tuns[0].Client.CloseAll(false)
 	c.S.Run(nil, 100, time.Second)
 	return fmt.Sprintf("packets:%s over %s after-authorisation=%v%s", kind, tr, after, placed)
+}
+
+// streamEndings: an open channel whose host keeps sending; the client's stream then ends
+// abruptly (EOF or reset at any point), or goes on after a channel close with data, another
+// channel create or further closes.
+func (h *hostileCtx) streamEndings(p *TunPlan, tr string) string {
+	c := h.c
+	if !(h.has("openid") && len(h.mechs) == 1) {
+		return "packets:stream-endings(not reachable in this configuration)"
+	}
+	p.Pkts = IdealHistory(c, h.tw, p, 1+c.T.Choose(3), func() int { return 1 + c.T.Choose(100) }, false)
+	for i := 0; i < 3+c.T.Choose(6); i++ {
+		p.HostScript = append(p.HostScript, c.T.Bytes(1+c.T.Choose(3000), byte(0x30+i)))
+	}
+	kind := ""
+	switch c.T.Choose(3) {
+	case 0:
+		p.CloseAfter = 4 + c.T.Choose(len(p.Pkts)-3)
+		p.CloseReset = c.T.Bool(1, 2)
+		kind = fmt.Sprintf("client-drops-after-%d(reset=%v)", p.CloseAfter, p.CloseReset)
+	case 1:
+		tail := [][]CPkt{
+			{PClose(), PData([]byte("after close"))},
+			{PClose(), PKeepalive(), PData([]byte("after close"))},
+			{PClose(), PChannel(p.AllowedHost, HostAllowed), PData([]byte("second channel"))},
+			{PClose(), PClose()},
+			{PClose(), PTunnelAuth("again"), PChannel(p.AllowedHost, HostAllowed)},
+		}[c.T.Choose(5)]
+		p.Pkts = append(p.Pkts, tail...)
+		kind = "packets-after-channel-close:" + planString(p, len(p.Pkts))
+	default:
+		p.Pkts = append(p.Pkts, PChannel(p.AllowedHost, HostAllowed), PData([]byte("x")), PClose())
+		kind = "second-channel-create-on-open-channel"
+	}
+	tuns := StartTunnels(c, []*TunPlan{p})
+	t := tuns[0]
+	c.S.Run(func() bool { return t.SentAll() || t.Client.Failed != "" }, 8000, 20*time.Second)
+	c.S.Run(nil, 600, 2*time.Second)
+	t.Client.CloseAll(false)
+	c.S.Run(nil, 200, time.Second)
+	return "packets:" + kind + " over " + tr + " while the host streams"
 }
 
 // keepaliveWhileStalled: an open channel whose host keeps sending, a client that stops
